@@ -79,8 +79,8 @@ func TestVF_C07(t *testing.T) {
 			// incoming set
 			var specs []vfFileSpec
 			var tops []string
-			scen := r.PickStr("file", "file", "dir", "samebase", "mixed", "longname", "exhausted")
-			if !cfg.Directory && (scen == "dir" || scen == "mixed") {
+			scen := r.PickStr("file", "file", "dir", "samebase", "mixed", "longname", "exhausted", "emptydir")
+			if !cfg.Directory && (scen == "dir" || scen == "mixed" || scen == "emptydir") {
 				scen = "file"
 			}
 			switch scen {
@@ -90,6 +90,9 @@ func TestVF_C07(t *testing.T) {
 			case "dir":
 				tops = []string{"proj"}
 				specs = []vfFileSpec{{Rel: "proj", Dir: true}, {Rel: "proj/a.txt", Size: 300, Content: "text"}, {Rel: "proj/sub/b.bin", Size: r.PickInt(0, 5000), Content: "rand"}, {Rel: "proj/empty", Dir: true}}
+			case "emptydir": // entries that carry no data stream
+				tops = []string{"hollow", "data.bin", "nest"}
+				specs = []vfFileSpec{{Rel: "hollow", Dir: true}, {Rel: "data.bin", Size: 33, Content: "rand"}, {Rel: "nest", Dir: true}, {Rel: "nest/only-empty", Dir: true}}
 			case "samebase":
 				tops = []string{"p1/same.txt", "p2/same.txt", "p3/same.txt"}
 				specs = []vfFileSpec{{Rel: "p1/same.txt", Size: 10, Content: "text"}, {Rel: "p2/same.txt", Size: 20, Content: "rand"}, {Rel: "p3/same.txt", Size: 0}}
